@@ -38,6 +38,7 @@ WITNESSES = {
     "KF_C17_2": "match x:\n    case [m1, m2]:\n        m1.ma",
     "KF_C17_3": "del p.a\np.c",
     "KF_C17_4": "t = 1\ndel t",
+    "KF_C17_5": "t = collections.namedtuple('t')\ndel t",
     "KF_C02_1": "g(getattr(p, 'b').items(y, 'd'))",   # a call through a getattr spine is recorded under a name the body never calls
 }
 
